@@ -695,6 +695,27 @@ Proof.
   pose proof (guard_axis_half_pos _ _ _ _ (Hg a)) as H. apply negb_true_iff. apply Z.eqb_neq. lia.
 Qed.
 
+Lemma compat_axis_not_stretch : forall os ns oc nc,
+  compat_axis os ns oc nc = true -> stretch_axis os ns oc nc = false.
+Proof.
+  intros os ns oc nc H. unfold compat_axis, stretch_axis in *.
+  set (h := oc / ax_f os ns) in *.
+  destruct (Z.eqb_spec h 1) as [E|E]; [|reflexivity]. cbn [andb]. apply Z.leb_gt.
+  apply andb_true_iff in H. destruct H as [_ H]. apply orb_true_iff in H. destruct H as [H|H].
+  - apply andb_true_iff in H. destruct H as [H1 H2]. apply Z.leb_le in H1, H2. lia.
+  - apply andb_true_iff in H. destruct H as [_ H]. apply orb_true_iff in H.
+    destruct H as [H|H]; apply andb_true_iff in H; destruct H as [H1 H2].
+    + apply Z.leb_le in H1, H2. lia.
+    + apply Z.leb_le in H2. lia.
+Qed.
+
+Lemma compat_not_stretch : forall g, compat g = true -> stretch_class g = false.
+Proof.
+  intros g Hc. unfold compat in Hc. rewrite !andb_true_iff in Hc. destruct Hc as [_ Hc].
+  unfold stretch_class, exists3_4. apply negb_false_iff. rewrite forall3_4_spec in *.
+  intro a. apply negb_true_iff. apply compat_axis_not_stretch. apply Hc.
+Qed.
+
 (* what a chunk of the result must contain: the downscaled whole level at the
    chunk's global positions, every voxel written *)
 Definition chunk_is_restriction (ds : t3 -> arr -> arr) (g : geom) (lvl : arr)
@@ -718,6 +739,7 @@ Proof.
   intros g lvl chunks Hg Hsh Hch H. unfold tile_level in H.
   destruct (eqb3 (g_ns g) (cdiv3 (g_os g) (factors g))) eqn:Hsz; cbn [negb] in H; [|discriminate].
   destruct (forall3 (fun h => negb (h =? 0)) (half_chunk g)); cbn [negb] in H; [|discriminate].
+  destruct (stretch_class g); [discriminate|].
   pose proof Hg as Hg'. unfold tiling_guard in Hg'. apply andb_true_iff in Hg'. destruct Hg' as [Hpos _].
   apply mapM_ok_Forall2 in H. apply Forall_forall. intros [[lo hi] buf] Hin.
   destruct (Forall2_In_l _ _ _ _ H Hin) as [idx [Hidx Ht]].
@@ -746,7 +768,7 @@ Proof.
   destruct (mapM_all_ok (tile_chunk ds g lvl) _ Hall) as [chunks Hm].
   assert (Ht : tile_level ds g lvl = Ok chunks).
   { unfold tile_level. unfold sizes_ok in Hsz. rewrite Hsz. cbn [negb].
-    rewrite (guard_half_nonzero g Hg). cbn [negb]. exact Hm. }
+    rewrite (guard_half_nonzero g Hg). cbn [negb]. rewrite (compat_not_stretch g Hc). exact Hm. }
   exists chunks. split; [exact Ht|]. split.
   - apply mapM_ok_Forall2 in Hm. clear Ht Hall. revert Hm.
     generalize (ndindex (chunk_range g)) as l.
@@ -858,68 +880,20 @@ Proof.
   f_equal. apply Hidx. exact Ho.
 Qed.
 
-(* ---------- refutation outside the guard ---------- *)
+(* ---------- the former silent-wrong witness is now refused ---------- *)
 
-Definition refute_check (ds : t3 -> arr -> arr) (g : geom) (lvl : arr) (k : nat) (c : Z) (p : t3)
-  : bool :=
-  match tile_level ds g lvl with
-  | Ok chunks =>
-      match nth_error chunks k with
-      | Some (lo, hi, buf) =>
-          in_box (0, 0, 0) (sub3 hi lo) p && (0 <=? c) && (c <? g_ch g) &&
-          match b_get buf c p with
-          | Val v => negb (v =? a_get (ds (factors g) lvl) c (add3 lo p))
-          | Uninit => true
-          end
-      | None => false
-      end
-  | _ => false
-  end.
-
-Lemma refute_check_sound : forall ds g lvl k c p, refute_check ds g lvl k c p = true ->
-  exists chunks, tile_level ds g lvl = Ok chunks /\
-                 ~ Forall (chunk_is_restriction ds g lvl) chunks.
-Proof.
-  intros ds g lvl k c p H. unfold refute_check in H.
-  destruct (tile_level ds g lvl) as [chunks| | | | | |kk]; try discriminate.
-  exists chunks. split; [reflexivity|]. intro HF.
-  destruct (nth_error chunks k) as [[[lo hi] buf]|] eqn:Hn; [|discriminate].
-  rewrite Forall_forall in HF. specialize (HF _ (nth_error_In _ _ Hn)). cbn in HF.
-  destruct HF as [idx [_ [_ [_ Hv]]]].
-  rewrite !andb_true_iff in H. destruct H as [[[Hb H0] H1] Hw].
-  apply Z.leb_le in H0. apply Z.ltb_lt in H1.
-  rewrite in_box_spec in Hb.
-  assert (Hp : forall a, 0 <= get3 a p < get3 a (sub3 hi lo)).
-  { intro a. specialize (Hb a). replace (get3 a (0, 0, 0)) with 0 in Hb by (destruct a; reflexivity). lia. }
-  rewrite (Hv c p (conj H0 H1) Hp) in Hw. rewrite Z.eqb_refl in Hw. discriminate.
-Qed.
-
-(* the witness class: generator chunk sizes (8,2,2) -> (8,4,4) on sizes
-   (9,5,1) -> (5,3,1); along y the old chunk equals the factor (half chunk 1)
-   and the new level has 3 rows in one new chunk *)
+(* generator chunk sizes (8,2,2) -> (8,4,4) on sizes (9,5,1) -> (5,3,1): along
+   y the half chunk is 1 and the new level has 3 rows in one new chunk.  Before
+   /repo e7c7a72 this wrote wrong rows without raising. *)
 Definition witness_geom : geom :=
   {| g_os := (9, 5, 1); g_ns := (5, 3, 1); g_oc := (8, 2, 2); g_nc := (8, 4, 4); g_ch := 1 |}.
 Definition witness_level : arr := arr_of_list 1 (9, 5, 1) (levels 45).
 
-Lemma tiling_refuted_stride :
-  tiling_guard witness_geom = false /\ stretch_class witness_geom = true /\
-  geom_pos witness_geom = true /\ sizes_ok witness_geom = true /\
-  a_sh witness_level = g_os witness_geom /\ a_c witness_level = g_ch witness_geom /\
-  exists chunks, tile_level ds_stride witness_geom witness_level = Ok chunks /\
-                 ~ Forall (chunk_is_restriction ds_stride witness_geom witness_level) chunks.
-Proof.
-  repeat split; try (vm_compute; reflexivity).
-  apply (refute_check_sound ds_stride witness_geom witness_level 0%nat 0 (0, 2, 0)).
-  vm_compute. reflexivity.
-Qed.
-
-Lemma tiling_refuted_avg :
-  exists chunks, tile_level ds_avg witness_geom witness_level = Ok chunks /\
-                 ~ Forall (chunk_is_restriction ds_avg witness_geom witness_level) chunks.
-Proof.
-  apply (refute_check_sound ds_avg witness_geom witness_level 0%nat 0 (0, 2, 0)).
-  vm_compute. reflexivity.
-Qed.
+Example former_witness_refused :
+  stretch_class witness_geom = true /\ geom_pos witness_geom = true /\
+  tile_level ds_stride witness_geom witness_level = Crash ValueError /\
+  tile_level ds_avg witness_geom witness_level = Crash ValueError.
+Proof. vm_compute. repeat split; reflexivity. Qed.
 
 (* non-vacuity of the hypotheses of tiling_exact / tiling_sound_on_guard *)
 Example compat_example :
@@ -983,7 +957,8 @@ Proof.
   { intro Hlt. destruct (P1 (proj2 (Z.ltb_lt _ _) Hlt)) as [L B]. rewrite bc_ok_cases in B.
     split; [lia | exact B]. }
   assert (Hst' : ~ (oc = f /\ 3 <= Z.min nc ns)).
-  { intros [E1 E2]. unfold stretch_axis in Hst. rewrite <- Ef in Hst.
+  { intros [E1 E2]. unfold stretch_axis in Hst. rewrite <- Ef, <- Eh in Hst.
+    assert (h = 1) by (rewrite Eh, E1; apply Z.div_same; lia).
     apply andb_false_iff in Hst. destruct Hst as [Hst|Hst];
       [apply Z.eqb_neq in Hst | apply Z.leb_gt in Hst]; lia. }
   assert (Hdiv : oc = f * h + oc mod f /\ 0 <= oc mod f < f).
@@ -1066,13 +1041,13 @@ Definition unit3 (a : axis) : t3 :=
 Lemma get3_unit3 : forall a a', get3 a' (unit3 a) = if match a, a' with AX, AX | AY, AY | AZ, AZ => true | _, _ => false end then 1 else 0.
 Proof. intros a a'; destruct a, a'; reflexivity. Qed.
 
-Theorem ok_outside_stretch_is_compat : forall g lvl chunks,
-  geom_pos g = true -> tile_level ds g lvl = Ok chunks -> stretch_class g = false ->
-  compat g = true.
+Theorem ok_is_compat : forall g lvl chunks,
+  geom_pos g = true -> tile_level ds g lvl = Ok chunks -> compat g = true.
 Proof.
-  intros g lvl chunks Hpos H Hst. unfold tile_level in H.
+  intros g lvl chunks Hpos H. unfold tile_level in H.
   destruct (eqb3 (g_ns g) (cdiv3 (g_os g) (factors g))) eqn:Hsz; cbn [negb] in H; [|discriminate].
   destruct (forall3 (fun h => negb (h =? 0)) (half_chunk g)) eqn:Hhz; cbn [negb] in H; [|discriminate].
+  destruct (stretch_class g) eqn:Hst; [discriminate|].
   destruct (geom_pos_spec g Hpos) as [Pos [Pns [Poc [Pnc Pch]]]].
   assert (Hszs : sizes_ok g = true) by exact Hsz.
   unfold compat. rewrite Hpos, Hszs. cbn [andb]. apply forall3_4_spec. intro a.
@@ -1129,16 +1104,40 @@ Qed.
 
 Hypothesis ds_local : ds_local_prop ds.
 
-(* the length-1 stretch is the ONLY way compute_dyadic_downscaling can write a
-   wrong level without raising *)
-Theorem tiling_sound_outside_stretch : forall g lvl chunks,
-  geom_pos g = true -> stretch_class g = false -> a_sh lvl = g_os g -> a_c lvl = g_ch g ->
+(* "If a pair of scales cannot be processed, the tool fails with an error
+   instead of writing wrong data": for EVERY geometry with positive sizes, a
+   transition that does not raise wrote, in every chunk, the whole previous
+   level downscaled once (in particular nothing uninitialised) *)
+Theorem tiling_sound : forall g lvl chunks,
+  geom_pos g = true -> a_sh lvl = g_os g -> a_c lvl = g_ch g ->
   tile_level ds g lvl = Ok chunks ->
   Forall (chunk_is_restriction ds g lvl) chunks.
 Proof.
-  intros g lvl chunks Hpos Hst Hsh Hch H.
-  pose proof (ok_outside_stretch_is_compat g lvl chunks Hpos H Hst) as Hc.
+  intros g lvl chunks Hpos Hsh Hch H.
+  pose proof (ok_is_compat g lvl chunks Hpos H) as Hc.
   apply (tiling_sound_on_guard ds ds_shape ds_local g lvl chunks (compat_guard g Hc) Hsh Hch H).
+Qed.
+
+Corollary no_uninit : forall g lvl chunks,
+  geom_pos g = true -> a_sh lvl = g_os g -> a_c lvl = g_ch g ->
+  tile_level ds g lvl = Ok chunks ->
+  forall lo hi buf c p, In (lo, hi, buf) chunks -> 0 <= c < g_ch g ->
+    (forall a, 0 <= get3 a p < get3 a (sub3 hi lo)) -> b_get buf c p <> Uninit.
+Proof.
+  intros g lvl chunks Hpos Hsh Hch H.
+  pose proof (ok_is_compat g lvl chunks Hpos H) as Hc.
+  apply (no_uninit_on_guard ds ds_shape ds_local g lvl chunks (compat_guard g Hc) Hsh Hch H).
+Qed.
+
+(* so, on positive geometries, "no error" and [compat] coincide *)
+Corollary ok_iff_compat : forall g lvl,
+  geom_pos g = true -> a_sh lvl = g_os g -> a_c lvl = g_ch g ->
+  ((exists chunks, tile_level ds g lvl = Ok chunks) <-> compat g = true).
+Proof.
+  intros g lvl Hpos Hsh Hch. split.
+  - intros [chunks H]. exact (ok_is_compat g lvl chunks Hpos H).
+  - intro Hc. destruct (tiling_exact ds ds_shape ds_local g lvl Hc Hsh Hch) as [chunks [H _]].
+    exists chunks. exact H.
 Qed.
 
 End Strong.
